@@ -9,6 +9,12 @@ mod frames;
 mod aread;
 #[cfg(feature = "io")]
 mod awrite;
+#[cfg(feature = "io")]
+mod bio;
+mod alloc;
+
+#[global_allocator]
+static GLOBAL: alloc::Counting = alloc::Counting;
 
 use serde_json::{json, Value};
 use std::io::{BufRead, BufReader, BufWriter, Write};
